@@ -8,10 +8,6 @@ namespace Holpy.C07
 
 variable {T : Table} {L : Ladder} {C : TySyms} {I : InstSyms}
 
-theorem parse_ty_at (hok : C.ok) (uni : Bool) (ty : Ty) {rest : List Tok} (hst : StopT C rest) :
-    parseTyAt C ((printTy C uni ty ++ rest).length + 1) (printTy C uni ty ++ rest) = some (ty, rest) :=
-  (ty_good hok uni ty).A rest _ hst (Nat.le_refl _)
-
 theorem stops_inst (hI : InstOK L C I) {s : Nat} (hs : s ∈ [I.comma, I.rbrace]) (r : List Tok) :
     Stops L 0 (.sym s :: r) ∧ StopT C (.sym s :: r) := by
   have h := hI.2 s hs
